@@ -13,3 +13,15 @@ package object
 //@   ensures [unchanged-on-error] r0 != nil ==> s.hZoom == old(s.hZoom) && s.x == old(s.x) && s.y == old(s.y) && s.vZoom == old(s.vZoom) && s.z == old(s.z)
 //@   loop 0 invariant len(convAttr) == $i && $i <= 5 && (forall k :: 0 <= k && k < $i ==> isnum(fld(extendedSpatialID, k)) && convAttr[k] == val(fld(extendedSpatialID, k)))
 //@ end
+
+//@ -- C04 kernel: the ancestor used for grouping is the floor ancestor on every axis
+//@ func ExtendedSpatialID.Higher
+//@   props C04 C09
+//@   split hDiff 0..35
+//@   split vDiff 0..35
+//@   fresh r0
+//@   valid 0 <= s.x && s.x < pow2(35) && 0 <= s.y && s.y < pow2(35) && 0 - pow2(35) <= s.z && s.z < pow2(35) && 0 <= s.hZoom && s.hZoom <= 35 && 0 <= s.vZoom && s.vZoom <= 35
+//@   ensures r0 != nil && r0.hZoom == s.hZoom - hDiff && r0.vZoom == s.vZoom - vDiff
+//@   ensures s.x >= 0 && s.y >= 0 ==> r0.x == anc(s.x, hDiff) && r0.y == anc(s.y, hDiff)
+//@   ensures r0.z == anc(s.z, vDiff)
+//@ end
